@@ -7,9 +7,13 @@ sys.path.insert(0, "/verif")
 from sa.core.loader import load_sourceset
 out = {}
 for path, text in sorted(load_sourceset().items()):
-    if not path.endswith(".py"):
+    if path.endswith(".pyx"):
+        from sa.core.pyx import decython
+        tree = ast.parse(decython(text))
+    elif not path.endswith(".py"):
         continue
-    tree = ast.parse(text)
+    else:
+        tree = ast.parse(text)
     names = []
     def walk(node, prefix):
         for st in ast.iter_child_nodes(node):
